@@ -645,8 +645,9 @@ Vinitialize(HFILEID f /* IN: file handle */)
     /* clear error stack */
     HEclear();
 
-    /* Check file ID */
-    if (f < 0)
+    /* Check file ID: it has to be the id of an open file, or a V table
+       would be set up for something that is not a file */
+    if (f < 0 || !HDvalidfid(f))
         HGOTO_ERROR(DFE_ARGS, FAIL);
 
     /* Perform global, one-time initialization */
